@@ -264,19 +264,25 @@ def rule_d(ctx, ix):
         if f is None:
             raise AnalysisError('LinkManager.%s vanished' % meth)
         s = f.self_name
-        loops = [n for n in body_stmts(f.node) if isinstance(n, ast.For)]
-        scan = [lp for lp in loops if unparse(lp.iter) in ('%s._external_links' % s, 'list(%s._external_links)' % s,
-                                                           '%s._external_links[:]' % s)]
+        from ..util import iterations, short_circuits
+        pm = parent_map(f.node)
+        forms = ('%s._external_links' % s, 'list(%s._external_links)' % s, '%s._external_links[:]' % s, 'tuple(%s._external_links)' % s)
+        scan = [(it, tg, owner, kind) for it, tg, owner, kind in iterations(f.node) if unparse(it).replace(' ', '') in forms]
         ok = len(scan) == 1
-        ctx.ob(R, f.construct, 'every external link is examined', ok and not any(isinstance(n, (ast.Break, ast.Return)) and
-               _direct_loop(scan[0], n) for n in ast.walk(scan[0])) if ok else False,
+        if ok:
+            it, tg, owner, kind = scan[0]
+            if kind == 'for':
+                ok = not any(isinstance(n, (ast.Break, ast.Return)) and _direct_loop(owner, n) for n in ast.walk(owner))
+            else:
+                ok = not short_circuits(pm, owner)
+        ctx.ob(R, f.construct, 'every external link is examined', ok,
                detail='%s does not examine every external link' % f.construct, where=f.where)
         if not ok:
             continue
-        lp = scan[0]
-        live = unparse(lp.iter) == '%s._external_links' % s
-        mut_inside = any(call_name(c) in ('remove_link', 'remove', 'pop') and ('_external_links' in unparse(c.func) or
-                         unparse(c.func) == '%s.remove_link' % s) for c in calls_in(lp))
+        it, tg, lp, kind = scan[0]
+        live = unparse(it) == '%s._external_links' % s
+        mut_inside = kind == 'for' and any(call_name(c) in ('remove_link', 'remove', 'pop') and ('_external_links' in unparse(c.func) or
+                                           unparse(c.func) == '%s.remove_link' % s) for c in calls_in(lp))
         ctx.ob(R, f.construct, 'the link list is not mutated while it is iterated', not (live and mut_inside),
                detail='%s removes links inside the loop over the live link list: every other matching link is skipped' % f.construct,
                where=where(f, lp))
@@ -310,11 +316,16 @@ def rule_e(ctx, ix):
         cmps = []
         for n in ast.walk(f.node):
             if isinstance(n, ast.Compare) and getattr(n, 'lineno', 0) < store[0].lineno:
-                l, r = unparse(n.left), unparse(n.comparators[0])
+                from ..util import expand_locals as _xl
+                l, r = unparse(_xl(f.node, n.left)), unparse(_xl(f.node, n.comparators[0]))
                 sides = l + ' ' + r
                 if ('%s.%s[' % (s, field) in sides) and ('%s[' % new in sides) and \
                         isinstance(n.ops[0], (ast.IsNot, ast.Is, ast.NotEq, ast.Eq)):
-                    if needle == '[' or (needle in l and needle in r):
+                    # the compared operands are the stored / new values themselves (`...[k].link`, `...[k]`), not something derived from them
+                    if needle == '[':
+                        if l.rstrip().endswith(']') and r.rstrip().endswith(']'):
+                            cmps.append(n)
+                    elif l.endswith(needle) and r.endswith(needle):
                         cmps.append(n)
         ctx.ob(R, f.construct, 'the shortcut compares %s of the stored and the new mapping' % what, bool(cmps),
                detail='%s returns early ("unchanged") without comparing %s: when the same attributes become reachable through other '
@@ -372,26 +383,88 @@ def rule_f(ctx, ix):
     ctx.idiom(R, al.construct, 'a link is usable when all of its inputs are known', accepted='set(l.get_from_ids())<=cids' in t,
               absent=('get_from_ids' not in t) or ('&cids' in t) or ('isdisjoint' in t) or ('>=cids' in t),
               detail_absent='accessible_links no longer requires *all* inputs of a link to be known (%s): links are applied to datasets that cannot evaluate them' % t, shape=t, where=al.where)
+    from .. import cond
+    from ..util import expand_locals
     loops = [n for n in walk_no_nested(d.node) if isinstance(n, ast.For) and 'accessible_links' in unparse(n.iter)]
     if len(loops) != 1:
         raise AnalysisError('discover_links: loop over the accessible links not recognised')
     lp = loops[0]
-    stores = {unparse(st.targets[0]): unparse(st.value) for st in lp.body if isinstance(st, ast.Assign)}
-    adds = [c for st in lp.body if isinstance(st, ast.Expr) for c in calls_in(st) if call_name(c) == 'add']
-    ok = stores.get('depth[to_]') == 'cost' and stores.get('cid_links[to_]') == 'link' and len(adds) == 1 and unparse(adds[0].args[0]) == 'to_'
-    ctx.ob(R, d.construct, 'a newly derivable attribute is recorded with its cost, its link and as known, together', ok,
-           detail='discover_links no longer records depth[to_] = cost, cids.add(to_) and cid_links[to_] = link together: %s' % stores, where=where(d, lp))
-    skip = [n for n in lp.body if isinstance(n, ast.If) and any(isinstance(x, ast.Continue) for x in n.body)]
-    t = unparse(skip[0].test).replace(' ', '') if skip else ''
-    ctx.idiom(R, d.construct + ' shortest', 'a known attribute is re-derived only through a strictly cheaper chain',
-              accepted=t in ('to_incidsandcost>=depth[to_]', 'to_incidsanddepth[to_]<=cost'),
-              absent=not skip or 'depth' not in t,
-              detail_absent='discover_links no longer skips links that do not shorten the chain to an already known attribute: the '
-                            'chain that is installed is not a shortest one (or the closure does not terminate)', shape=t, where=where(d, lp))
-    ctx.ob(R, d.construct + ' cost', 'the cost of a chain is one more than its most expensive input',
-           any(isinstance(st, ast.Assign) and unparse(st.targets[0]) == 'cost' and unparse(st.value).replace(' ', '') == 'max([depth[f]forfinfrom_])+1'
-               for st in ast.walk(lp)),
-           detail='discover_links no longer computes cost = max(depth of inputs) + 1', where=where(d, lp), nontrivial=False)
+    if not (isinstance(lp.iter, ast.Call) and lp.iter.args and isinstance(lp.iter.args[0], ast.Name) and isinstance(lp.target, ast.Name)):
+        raise AnalysisError('discover_links: the loop is not `for link in accessible_links(<known set>, links)`')
+    known, link = lp.iter.args[0].id, lp.target.id
+    rets = [r.value for r in returns_of(d) if r.value is not None]
+    if len(rets) != 1 or not isinstance(rets[0], ast.Name):
+        raise AnalysisError('discover_links: the returned mapping is not a single name')
+    result = rets[0].id
+
+    def is_target(e):
+        return unparse(expand_locals(d.node, e)).replace(' ', '') == '%s.get_to_id()' % link
+    # the three records: <depths>[target] = cost ; <known>.add(target) ; <result>[target] = link
+    recs = {}
+    for st in ast.walk(lp):
+        if isinstance(st, ast.Assign) and isinstance(st.targets[0], ast.Subscript) and is_target(st.targets[0].slice):
+            base = unparse(st.targets[0].value)
+            if base == result and unparse(st.value) == link:
+                recs['link'] = st
+            elif base != result:
+                recs['depth'] = st
+        elif isinstance(st, ast.Expr) and isinstance(st.value, ast.Call) and call_name(st.value) == 'add' \
+                and unparse(st.value.func.value) == known and st.value.args and is_target(st.value.args[0]):
+            recs['known'] = st
+    pm = parent_map(d.node)
+    together = len(recs) == 3 and len({id(pm.get(id(st))) for st in recs.values()}) == 1
+    ctx.ob(R, d.construct, 'a newly derivable attribute is recorded with its cost, its link and as known, together', together,
+           detail='discover_links no longer records <depth>[target] = cost, <known>.add(target) and <result>[target] = link in one block: '
+                  'found %s' % sorted(recs), where=where(d, lp))
+    if together:
+        depth = unparse(recs['depth'].targets[0].value)
+        cost_e = expand_locals(d.node, recs['depth'].value)
+        # local helper functions (def _cost(link): return ...) are expanded by the inliner; a plain name is expanded above
+        tgt = '%s.get_to_id()' % link
+        pc = cond.path_condition(d.node, recs['depth'])
+        if pc is None:
+            raise AnalysisError('discover_links: the record statement is not reachable in the loop body')
+        cost_txt = unparse(recs['depth'].value).replace(' ', '')
+        a_known = cond.T('in|%s|%s' % (tgt, known))
+        # cost < depth[target]
+        cheaper = [k for k in cond.atoms(pc) if k.startswith('lt|') and ('%s[%s]' % (depth, tgt)) in k]
+        keep = lambda k: k == a_known[1] or k in cheaper
+        got = cond.restrict(pc, keep)
+        want = None
+        if len(cheaper) == 1:
+            lt = cond.T(cheaper[0])
+            left, right = cheaper[0].split('|')[1:]
+            # lt|cost|depth[t]  (cost < depth)   or   lt|depth[t]|cost (depth < cost, i.e. the negation of cost <= depth)
+            if right == '%s[%s]' % (depth, tgt):
+                want = cond.Or(cond.Not(a_known), lt)
+        ctx.idiom(R, d.construct + ' shortest', 'a known attribute is re-derived only through a strictly cheaper chain',
+                  accepted=want is not None and cond.equivalent(got, want),
+                  absent=not cheaper or (want is not None and not cond.equivalent(got, want)),
+                  detail_absent='discover_links records a link for an attribute under the condition `%s`: it no longer skips links that do '
+                                'not strictly shorten the chain to an already known attribute, so the chain that is installed is not a '
+                                'shortest one (or the closure does not terminate)' % (got,), shape=str(got), where=where(d, lp))
+        # cost = max(depth of the inputs) + 1
+        ce = cost_e
+        alts = [ce]
+        if isinstance(ce, ast.IfExp):
+            alts = [ce.body, ce.orelse]
+        else:
+            # if len(from_) > 0: cost = max(...) + 1 else: cost = 1
+            name = recs['depth'].value.id if isinstance(recs['depth'].value, ast.Name) else None
+            if name:
+                alts = [st.value for st in ast.walk(lp) if isinstance(st, ast.Assign) and unparse(st.targets[0]) == name] or [ce]
+        ok = False
+        for a in alts:
+            a = expand_locals(d.node, a)
+            if isinstance(a, ast.BinOp) and isinstance(a.op, ast.Add) and isinstance(a.right, ast.Constant) and a.right.value == 1 \
+                    and isinstance(a.left, ast.Call) and call_name(a.left) == 'max' and a.left.args:
+                g = a.left.args[0]
+                if isinstance(g, (ast.ListComp, ast.GeneratorExp)) and isinstance(g.elt, ast.Subscript) and unparse(g.elt.value) == depth \
+                        and 'get_from_ids' in unparse(expand_locals(d.node, g.generators[0].iter)) and unparse(g.elt.slice) == unparse(g.generators[0].target):
+                    ok = True
+        ctx.ob(R, d.construct + ' cost', 'the cost of a chain is one more than its most expensive input', ok,
+               detail='discover_links no longer computes the cost of a link as max(depth of its inputs) + 1 (found `%s`)' % unparse(cost_e)[:120],
+               where=where(d, lp), nontrivial=False)
 
 
 def _direct_loop(loop, node):
